@@ -181,7 +181,8 @@ def reorderList (k : Kernel) (e : Nat) : Option (List Nat) :=
       let res := if acc.length != n then k.walkBwd (opp heh) n (n + 1) start acc else .stop acc
       match res with
       | .abort => none
-      | .stop acc2 => if acc2.length == n then some acc2 else none
+      -- bf387da: stored only when the walk visited every cached halfface exactly once
+      | .stop acc2 => if acc2.length == n && acc2.isPerm inc then some acc2 else none
 
 /-- write-back of `std::transform(rbegin, rend, dst.begin(), opp)`: overwrites the first
     `src.length` slots of `dst` (the C++ does not resize `dst`) -/
@@ -196,6 +197,27 @@ def reorderWrite (k : Kernel) (e : Nat) (l : List Nat) : Kernel :=
       (overwritePrefix ((k.incHfs.set (heOf e 0) l).getD (heOf e 1) [])
         ((l.reverse.map opp).take ((k.incHfs.set (heOf e 0) l).getD (heOf e 1) []).length)),
     fault := k.fault || decide (((k.incHfs.set (heOf e 0) l).getD (heOf e 1) []).length < l.length) }
+
+/-- what `reorder` writes is a permutation of what the cache held (bf387da) -/
+theorem reorderList_perm (k : Kernel) (e : Nat) (l : List Nat) (h : k.reorderList e = some l) :
+    l.Perm (k.hfsOf (heOf e 0)) := by
+  unfold reorderList at h
+  simp only at h
+  split at h
+  · simp at h
+  · split at h
+    · simp at h
+    · split at h
+      · simp at h
+      · split at h
+        · simp at h
+        · split at h
+          · rename_i hc
+            simp only [Option.some.injEq] at h
+            subst h
+            simp only [Bool.and_eq_true] at hc
+            exact List.isPerm_iff.mp hc.2
+          · simp at h
 
 def reorder (k : Kernel) (e : Nat) : Kernel :=
   match k.reorderList e with
